@@ -1,6 +1,8 @@
 import os, sys
 sys.path.insert(0, os.path.join(os.path.dirname(os.path.abspath(__file__)), '..', 'lib'))
 import vlib, flow
+import gen_trans
+gen_trans.register('aml_tree.json')   # Go -> Gallina translation of the ObjectTree operations of obj_tree.go, pool-pointer mode (Gen/Trans_aml_tree.v, used by Aml/TreeTrans.v)
 
 H = os.path.join(vlib.ROOT, 'harness/kernel/device/acpi/aml')
 vlib.register_const_dump('kernel', 'device/acpi/aml', os.path.join(H, 'zz_verif_consts_tree_test.go'),
@@ -666,7 +668,7 @@ def gen_illegal(rng, sim):
 
 class C13(flow.Spec):
     prop = 'C13'
-    props_files = ['theories/Props/C13.v', 'theories/Props/C13_examples.v']
+    props_files = ['theories/Props/C13.v', 'theories/Props/C13_examples.v', 'theories/Props/C13_trans.v', 'theories/Props/C13_trans_q.v', 'theories/Props/C13_trans_examples.v']
     model_targets = ['theories/Aml/Tree.vo']
     pkg = 'device/acpi/aml'
     harness = [os.path.join(H, 'zz_verif_c13_test.go')]
